@@ -42,7 +42,7 @@ def gen_case(rng):
     x = gens.signal(rng, kind, n)
     if rng.random() < .1 and np.ptp(x) > 0:
         # an oscillation riding on a large constant offset (almost flat in relative terms, oscillatory all the same)
-        x = x + float(gens.pick(rng, [-1, 1])) * float(10 ** rng.uniform(2, 4)) * np.abs(x).max()
+        x = x + float(gens.pick(rng, [-1, 1])) * float(10 ** rng.uniform(2, 6.5)) * np.abs(x).max()
     io = gens.imf_opts(rng)
     if io['stop_method'] != 'fixed' and rng.random() < .25:
         io['max_iters'] = int(gens.pick(rng, [10, 30, 100]))     # a tight iteration budget: the call either raises or is complete
